@@ -6,6 +6,8 @@ sys.path.insert(0, os.path.dirname(os.path.abspath(__file__)))
 import common, build, refbind
 
 DEADLINES = {"quick": 240, "thorough": 2400}
+# per-check overrides: C12 runs ~1300 sanitizer processes (about 100 s on 16 idle cores, several minutes on a loaded machine); C11/C16 thorough are the long explorations
+DEADLINE_OVERRIDES = {("C12", "quick"): 900, ("C12", "thorough"): 3000, ("C16", "thorough"): 3000, ("C11", "thorough"): 3000}
 
 
 def main():
@@ -33,7 +35,7 @@ def main():
         print(json.dumps(r, indent=1))
         return 0
     tier = a.tier if a.tier in ("quick", "thorough") else "quick"
-    ctx = common.Ctx(pid, tier, seed, a.deadline or float(os.environ.get("VERIF_DEADLINE", DEADLINES[tier])))
+    ctx = common.Ctx(pid, tier, seed, a.deadline or float(os.environ.get("VERIF_DEADLINE", DEADLINE_OVERRIDES.get((pid, tier), DEADLINES[tier]))))
     mod = importlib.import_module("checks." + pid.lower())
     try:
         build.gc()
